@@ -340,7 +340,8 @@ class Interp:
             elif t.kind == "switch":
                 v = self.operand(fr, t.op)
                 if isinstance(v, MaskV) or not isinstance(v, IntV):
-                    raise Unsupported("switchInt on a symbolic value in %s bb%d" % (body.name, bb))
+                    bb = self.switch_ext(fr, t, v, bb)
+                    continue
                 nxt = None
                 for val, tgt in t.targets:
                     if val is None:
@@ -354,7 +355,9 @@ class Interp:
                 op, expect = t.op
                 v = self.operand(fr, op)
                 if not isinstance(v, IntV):
-                    raise Unsupported("assert on symbolic value")
+                    self.assert_ext(fr, t, v, expect)
+                    bb = t.target
+                    continue
                 if bool(v.v) != expect:
                     raise MirError("assertion failed in %s: %s" % (body.name, t.text))
                 bb = t.target
@@ -388,7 +391,7 @@ class Interp:
             elif k == "index":
                 iv = fr.cell(pr[1]).val
                 if not isinstance(iv, IntV) or isinstance(iv, MaskV):
-                    raise Unsupported("symbolic index")
+                    iv = self.index_ext(fr, Ref(cell, path), iv)
                 path = path + (iv.v,)
             elif k == "cindex":
                 path = path + (pr[1],)
@@ -562,7 +565,7 @@ class Interp:
                 return MaskV(v.cond, it[0])
             if isinstance(v, Ref):
                 return v
-            raise Unsupported("cast %s of %r" % (rv.aux, v))
+            return self.cast_ext(v, ty, kind)
         if k == "unop":
             v = self.operand(fr, rv.args[0])
             return self.unop(rv.aux, v)
@@ -572,7 +575,26 @@ class Interp:
             return self.binop(rv.aux, a, b)
         raise Unsupported("rvalue " + k)
 
+    # extension points (algorithm mode overrides these)
+    def cast_ext(self, v, ty, kind):
+        raise Unsupported("cast (%s, %s) of %r" % (ty, kind, v))
+
+    def op_ext(self, op, a, b=None):
+        return NotImplemented
+
+    def switch_ext(self, fr, t, v, bb):
+        raise Unsupported("switchInt on a symbolic value in %s bb%d" % (fr.body.name, bb))
+
+    def assert_ext(self, fr, t, v, expect):
+        raise Unsupported("assert on symbolic value")
+
+    def index_ext(self, fr, base_ref, iv):
+        raise Unsupported("symbolic index")
+
     def unop(self, op, v):
+        r = self.op_ext(op, v)
+        if r is not NotImplemented:
+            return r
         if isinstance(v, MaskV):
             if op == "Not":
                 return MaskV(R.bnot(v.cond), v.bits)
@@ -589,6 +611,9 @@ class Interp:
         raise Unsupported("unop %s on %r" % (op, v))
 
     def binop(self, op, a, b):
+        r = self.op_ext(op, a, b)
+        if r is not NotImplemented:
+            return r
         if isinstance(a, MaskV) or isinstance(b, MaskV):
             def cond(x):
                 if isinstance(x, MaskV):
